@@ -28,6 +28,7 @@ Total(o) == o \in {"Message"} \cup OwnErrors          \* never any other excepti
 CaseVerdict ==
   CASE E.what = "base" -> "accept"
     [] E.what = "len" -> "reject"
+    [] E.what = "feature" -> KeyVerdict("bool", E.c)
     [] E.what = "pos" -> PosVerdict(E.t, E.i, E.c)
     [] E.what = "key" -> KeyVerdict((CHOOSE k \in Types[E.t].keys : k.k = E.key).kind, E.c)
 
